@@ -47,6 +47,35 @@ Lemma root_untouched cfg filter t :
   kind_of (quantize_tree cfg filter t) = kind_of t /\ id_of (quantize_tree cfg filter t) = id_of t.
 Proof. destruct t; split; reflexivity. Qed.
 
+
+(* nested induction over module trees *)
+Lemma mtree_ind' (P : mtree -> Prop) :
+  (forall k id ch, Forall (fun nc => P (snd nc)) ch -> P (Node k id ch)) -> forall t, P t.
+Proof.
+  intros H. fix IH 1. intros [k id ch]. apply H.
+  induction ch as [|[n c] ch IHch]; constructor; [apply IH|exact IHch].
+Qed.
+
+Definition name_id (x : string * nat * Z) : string * nat := fst x.
+
+(* what named_modules() lists after quantize(): the same dotted names, in the same order, carrying the same
+   identities (hyper-parameters, parameter values, dtype, device) — nothing added, removed, renamed or moved *)
+Lemma named_qchild_names cfg filter t : forall p,
+  map name_id (named p (qchild cfg filter t)) = map name_id (named p t).
+Proof.
+  induction t as [k id ch IH] using mtree_ind'. intros p. cbn [qchild named map]. f_equal.
+  induction ch as [|[n c] ch IHch]; [reflexivity|].
+  inversion IH as [|x l Hc Hl]; subst. cbn [map flat_map fst snd]. rewrite !map_app. f_equal; [apply Hc|apply IHch; exact Hl].
+Qed.
+
+Theorem named_quantize_names cfg filter t :
+  map name_id (named "" (quantize_tree cfg filter t)) = map name_id (named "" t).
+Proof.
+  destruct t as [k id ch]. cbn [quantize_tree named map]. f_equal.
+  induction ch as [|[n c] ch IHch]; [reflexivity|].
+  cbn [map flat_map fst snd]. rewrite !map_app. f_equal; [apply named_qchild_names|exact IHch].
+Qed.
+
 (* ---- C09: freeze ------------------------------------------------------------------------------ *)
 Section Life.
 Variables W Q : Type.
@@ -74,3 +103,25 @@ Proof. reflexivity. Qed.
 Theorem frozen_ignores_updates (q : Q) (w' : W) : qweight W Q quant (update W Q w' (Frozen W Q q)) = q.
 Proof. reflexivity. Qed.
 End Life.
+
+(* ---- histories: outputs depend on the calibration epoch only; freeze is absorbing --------------- *)
+Lemma lstep_epoch act s o : o <> LCalibrate -> l_epoch (lstep act s o) = l_epoch s.
+Proof. destruct o; intros H; try reflexivity. contradiction. Qed.
+
+Lemma lstep_frozen_mono act s o : l_frozen s = true -> l_frozen (lstep act s o) = true.
+Proof. destruct o; intros H; cbn; try exact H; reflexivity. Qed.
+
+Theorem history_epoch_only act ops : forall s,
+  ~ In LCalibrate ops -> Forall (fun fe => snd fe = l_epoch s) (ltrace act s ops).
+Proof.
+  induction ops as [|o ops IH]; intros s Hn; [constructor|].
+  cbn [ltrace]. assert (He : l_epoch (lstep act s o) = l_epoch s) by (apply lstep_epoch; intros ->; apply Hn; left; reflexivity).
+  constructor; [exact He|]. rewrite <- He. apply IH. intros Hin. apply Hn. right. exact Hin.
+Qed.
+
+Theorem history_frozen_absorbing act ops : forall s,
+  l_frozen s = true -> Forall (fun fe => fst fe = true) (ltrace act s ops).
+Proof.
+  induction ops as [|o ops IH]; intros s Hf; [constructor|].
+  cbn [ltrace]. constructor; [apply lstep_frozen_mono; exact Hf|]. apply IH. apply lstep_frozen_mono. exact Hf.
+Qed.
